@@ -7,6 +7,7 @@ import (
 	"os"
 	"path/filepath"
 	"sort"
+	"strings"
 	"syscall"
 	"time"
 )
@@ -38,6 +39,18 @@ type fsState struct {
 	observe  func(op *FSOp, err error)
 	Touched  []string
 	recordTo bool
+	root     string
+}
+
+// SetPathRoot declares the scratch root of this run; trace hashes and events
+// use paths relative to it so they do not depend on the process id.
+func SetPathRoot(root string) { must().fs.root = root }
+
+func (f *fsState) rel(p string) string {
+	if f.root != "" && strings.HasPrefix(p, f.root) {
+		return p[len(f.root):]
+	}
+	return p
 }
 
 func newFSState(s *Sim) *fsState { return &fsState{s: s} }
@@ -130,7 +143,7 @@ func fsEnd(op *FSOp, act FSAction, err error) {
 		return
 	}
 	if op.Mut {
-		s.mix(0xf5, hashStr(op.Kind+"|"+op.Path+"|"+op.Path2))
+		s.mix(0xf5, hashStr(op.Kind+"|"+s.fs.rel(op.Path)+"|"+s.fs.rel(op.Path2)))
 	}
 	if s.fs.observe != nil {
 		s.fs.observe(op, err)
